@@ -325,3 +325,26 @@ Print Assumptions C14_formops_has_continuation_agrees.
 Print Assumptions C14_formops_copy_wf.
 Print Assumptions C14_formops_copy_agrees.
 Print Assumptions C14_formops_copy_identity.
+
+(* Name.Initialized / Name.Equal / Name.Substitute of process/name.go, translated on this run
+   (`probe nameops` -> gen/NameOps.v, IR of NameIR.v): what the code says now is Subst.name_equal /
+   Subst.name_subst (with the F12 repair: a name without a channel only stands for a variable). *)
+Require Grits.NameIR Grits.gen.NameOps Grits.proofs.NameOpsAgree.
+Theorem C14_nameops_fields : NameOps.name_fields = NameIR.expected_name_fields.
+Proof. exact NameOpsAgree.nameops_fields. Qed.
+Theorem C14_nameops_init_wf : NameIR.name_init_ok NameOps.name_ops = true.
+Proof. exact NameOpsAgree.nameops_init_wf. Qed.
+Theorem C14_nameops_subst_wf : NameIR.name_subst_ok NameOps.name_ops = true.
+Proof. exact NameOpsAgree.nameops_subst_wf. Qed.
+Theorem C14_nameops_initialized_agrees : forall n, NameIR.ir_initialized NameOps.name_ops n = Subst.initialized n.
+Proof. exact NameOpsAgree.nameops_initialized_agrees. Qed.
+Theorem C14_nameops_equal_agrees : forall a b, NameIR.ir_name_equal NameOps.name_ops a b = Subst.name_equal a b.
+Proof. exact NameOpsAgree.nameops_equal_agrees. Qed.
+Theorem C14_nameops_subst_agrees : forall old new n, NameIR.ir_name_subst NameOps.name_ops old new n = Subst.name_subst old new n.
+Proof. exact NameOpsAgree.nameops_subst_agrees. Qed.
+Print Assumptions C14_nameops_fields.
+Print Assumptions C14_nameops_init_wf.
+Print Assumptions C14_nameops_subst_wf.
+Print Assumptions C14_nameops_initialized_agrees.
+Print Assumptions C14_nameops_equal_agrees.
+Print Assumptions C14_nameops_subst_agrees.
